@@ -5,6 +5,7 @@ from io import BytesIO
 from ...utils.leb128 import signed_leb128_encode, unsigned_leb128_encode
 from ...format.io import BaseIoWriter
 from ..opcodes import ArgType, OPERANDS, OPCODES
+from ..util import f32_to_bits
 from ..components import Instruction, SECTION_IDS
 from .. import components
 from .io import LANG_TYPES
@@ -127,7 +128,7 @@ class BinaryFileWriter(BaseIoWriter):
 
     def write_f32(self, x: float):
         """Write 32-bit floating point value."""
-        self.write_fmt("<f", x)
+        self.write_fmt("<I", f32_to_bits(x))
 
     def write_u32(self, x: int):
         """Write unsigned 32-bit integer value."""
